@@ -154,6 +154,25 @@ func runC02(c C02Case) (res c02result) {
 			}
 			P.Send(&codec.Packet{Type: codec.PUBREL, PacketID: id})
 			expAcks = append(expAcks, &codec.Packet{Type: codec.PUBCOMP, PacketID: id})
+		case "stray":
+			// an acknowledgement that belongs to the other direction (the broker as sender) and refers to
+			// nothing the broker has sent: it concerns none of the publisher's own exchanges, whose
+			// identifiers it may share. A PUBREC is answered by a PUBREL (the sender's duty), the others by nothing.
+			switch op.Size % 3 {
+			case 0:
+				P.Send(&codec.Packet{Type: codec.PUBACK, PacketID: op.ID})
+			case 1:
+				P.Send(&codec.Packet{Type: codec.PUBCOMP, PacketID: op.ID})
+			default:
+				P.Send(&codec.Packet{Type: codec.PUBREC, PacketID: op.ID})
+				expAcks = append(expAcks, &codec.Packet{Type: codec.PUBREL, PacketID: op.ID})
+			}
+			for _, o := range open {
+				if o.id == op.ID {
+					cls["stray-acknowledgement-with-the-identifier-of-an-open-exchange"] = true
+				}
+			}
+			cls["stray-acknowledgement"] = true
 		case "filler":
 			per := 4000
 			for sent := 0; sent < op.Volume; sent += per {
@@ -330,6 +349,8 @@ func genC02(t *rapid.T) C02Case {
 			c.Ops = append(c.Ops, C02Op{K: "pub2", ID: id, Size: size, Dup: rapid.IntRange(0, 4).Draw(t, "firstdup") == 0, Sys: rapid.IntRange(0, 9).Draw(t, "sys") == 0})
 		case k < 9:
 			c.Ops = append(c.Ops, C02Op{K: "rel"})
+		case k == 9 && rapid.Bool().Draw(t, "stray"):
+			c.Ops = append(c.Ops, C02Op{K: "stray", ID: id, Size: rapid.IntRange(0, 2).Draw(t, "straykind")})
 		case k == 9:
 			c.Ops = append(c.Ops, C02Op{K: "duprel", ID: id})
 		case k == 10 && rapid.IntRange(0, 2).Draw(t, "jam") == 0:
